@@ -367,6 +367,37 @@ func (x *client) getReplyRules() {
 			}
 		}
 	}
+	if !okRe && (hdrIf == nil || func() bool { _, isPhi := hdrIf.Cond.(*ssa.Phi); return !isPhi }()) {
+		// the same loop written as `for { ...; if !(Seq == 0 && seq != 0) { break } }`: every way
+		// round the loop after the receive establishes both literals, and no way out of the loop
+		// (other than a return) does
+		want1, want2 := msgLoc+".Header.Seq == 0", "p1 != 0"
+		ips, complete := IterationPathsExit(fn, outer)
+		nStop := 0
+		okPath := complete
+		for _, p := range ips {
+			if len(p.CallsNamed("invoke:libaudit.NetlinkSendReceiver.Receive")) == 0 {
+				continue
+			}
+			both := p.HasLit(want1) && p.HasLit(want2)
+			switch p.End {
+			case "stop":
+				nStop++
+				if !both {
+					okPath = false
+					detail = "the receive loop is re-entered on a path that does not establish " + want1 + " ∧ " + want2 + ": " + compactPath(p)
+				}
+			case "exit":
+				if both {
+					okPath = false
+					detail = "a sequence-0 message is not skipped although a reply is awaited (the loop is left with " + want1 + " ∧ " + want2 + "): " + compactPath(p)
+				}
+			}
+		}
+		if okPath && nStop > 0 {
+			okRe = true
+		}
+	}
 	r.Check(okRe, "getReply re-entry condition", outer.Header.Instrs[0].Pos(), "receiveMore ⇒ Seq == 0 ∧ seq != 0", detail)
 
 	r.Rule("C08.R3", "bounded transient retry: the receive loop is counted with a constant bound >= 10; it continues only on errors.Is(err, EINTR) / errors.Is(err, EAGAIN); any other error is returned wrapped; running out of attempts returns an error", 4)
@@ -860,7 +891,10 @@ func propC17(r *Run, w *World) {
 									}
 								}
 							}
-							ok = isConstInt(sc.Args[2], 2) && mask == fmt.Sprint(pidMask) && pid == "0" && nStores == 2
+							// the status is a fresh literal: PID is 0 whether it is written out or left at
+							// its zero value; no other field may be set
+							okPid := (pid == "0" && nStores == 2) || (pid == "" && nStores == 1)
+							ok = isConstInt(sc.Args[2], 2) && mask == fmt.Sprint(pidMask) && okPid
 							detail = fmt.Sprintf("the PID clear is not set(AuditStatus{Mask: AuditStatusPID, PID: 0}, NoWait): mask=%s pid=%s stores=%d mode=%s", mask, pid, nStores, Term(sc.Args[2]))
 						}
 					} else if guard != "" {
